@@ -296,6 +296,68 @@ pub fn run_one(cache: &mut ParamCache, sc: &J, bits: bool, out: &mut dyn Write) 
     Ok(())
 }
 
+/// The standard library's own entry points (`verify`, `batch_verify` on batches of one and two) on a proof of a small
+/// relation: byte-level tamper plan (appended bytes, truncations, bit flips spread over the proof, a changed public input).
+pub fn run_std(sc: &J, out: &mut dyn Write) -> Result<(), String> {
+    use midnight_zk_stdlib as sl;
+    use rand::SeedableRng;
+
+    use crate::rels::{self, MulRel};
+    let seed = sc["seed"].as_u64().unwrap_or(3);
+    let mut rng = rand_chacha::ChaCha8Rng::seed_from_u64(seed);
+    let k = sl::MidnightCircuit::from_relation(&MulRel).min_k();
+    let params = midnight_proofs::poly::kzg::params::ParamsKZG::<midnight_curves::Bls12>::unsafe_setup(k, &mut rng);
+    let vk = sl::setup_vk(&params, &MulRel);
+    let pk = sl::setup_pk(&MulRel, &vk);
+    let (inst, wit) = rels::mul_case(seed % 2);
+    let (inst2, wit2) = rels::mul_case((seed + 1) % 2);
+    let proof = sl::prove::<MulRel, Blake>(&params, &pk, &MulRel, &inst, wit, &mut rng).map_err(|e| format!("{e:?}"))?;
+    let proof2 = sl::prove::<MulRel, Blake>(&params, &pk, &MulRel, &inst2, wit2, &mut rng).map_err(|e| format!("{e:?}"))?;
+    let vp = params.verifier_params();
+    writeln!(out, "{}", json!({"ev":"reset","sc":sc,"entry":"stdlib","hash":"blake2b","k":k,"prooflen":proof.len(),"layout":[],
+        "nproofs":0,"committed":0,"plain":[],"bits":false})).unwrap();
+    let guard = |f: &dyn Fn() -> Result<(), midnight_proofs::plonk::Error>| -> String {
+        match std::panic::catch_unwind(std::panic::AssertUnwindSafe(f)) {
+            Ok(Ok(())) => "ok".into(),
+            Ok(Err(e)) => format!("err:{e:?}").chars().take(60).collect(),
+            Err(p) => format!("panic:{}", crate::plonkrun::panic_msg(p)).chars().take(60).collect(),
+        }
+    };
+    let n = proof.len();
+    let mut plan: Vec<(J, Vec<u8>, F)> = vec![(json!({"t":"identity","n":0}), proof.clone(), inst)];
+    for a in [1usize, 32, 48] {
+        let mut p = proof.clone();
+        p.extend(std::iter::repeat(0u8).take(a));
+        plan.push((json!({"t":"append","n":a}), p, inst));
+    }
+    for t in [1usize, 32] {
+        plan.push((json!({"t":"trunc","n":t}), proof[..n - t].to_vec(), inst));
+    }
+    for q in 1..=8usize {
+        let mut p = proof.clone();
+        let pos = ((n - 1) * (q - 1) / 7 + (seed as usize % 5)).min(n - 1);
+        p[pos] ^= 1 << (q % 8);
+        plan.push((json!({"t":"flip","n":q,"pos":pos}), p, inst));
+    }
+    plan.push((json!({"t":"pi","n":0}), proof.clone(), inst + F::ONE));
+    for (what, p, i) in plan.iter() {
+        let (ps, ss) = (*p == proof, *i == inst);
+        for entry in ["verify", "batch1", "batch2_first", "batch2_second"] {
+            let v = match entry {
+                "verify" => guard(&|| sl::verify::<MulRel, Blake>(&vp, &vk, i, None, p)),
+                "batch1" => guard(&|| sl::batch_verify::<Blake>(&vp, &[vk.clone()], &[vec![*i]], &[p.clone()])),
+                "batch2_first" => guard(&|| sl::batch_verify::<Blake>(&vp, &[vk.clone(), vk.clone()], &[vec![*i], vec![inst2]], &[p.clone(), proof2.clone()])),
+                _ => guard(&|| sl::batch_verify::<Blake>(&vp, &[vk.clone(), vk.clone()], &[vec![inst2], vec![*i]], &[proof2.clone(), p.clone()])),
+            };
+            let mut w = what.clone();
+            w["entry"] = json!(entry);
+            writeln!(out, "{}", json!({"ev":"STamper","what":w,"proof_same":ps,"stmt_same":ss,"key_same":true,"res":res_class(&v),"detail":v})).unwrap();
+        }
+    }
+    writeln!(out, "{}", json!({"ev":"EndRun"})).unwrap();
+    Ok(())
+}
+
 pub fn main(args: &[String]) -> i32 {
     let scen = util::read_ndjson(&args[0]);
     let mut out = util::create(&args[1]);
@@ -304,6 +366,13 @@ pub fn main(args: &[String]) -> i32 {
     writeln!(out, "{}", json!({"ev":"header","prop":"C03","n":scen.len()})).unwrap();
     for sc in scen.iter() {
         let b = bits && sc["bits"].as_bool().unwrap_or(true);
+        if sc["stdlib"].as_bool().unwrap_or(false) {
+            if let Err(e) = run_std(sc, &mut out) {
+                eprintln!("HARNESS-ERROR scenario {sc}: {e}");
+                return 2;
+            }
+            continue;
+        }
         if let Err(e) = run_one(&mut cache, sc, b, &mut out) {
             eprintln!("HARNESS-ERROR scenario {sc}: {e}");
             return 2;
